@@ -42,6 +42,9 @@ Accept(r) ==
                       /\ JarLawWith(jar, r.nests, JarOut(r), "jin" \in DOMAIN r)
                       /\ ("others" \in DOMAIN r) => r.got.others = r.others           \* entries that are no classes pass through
                       /\ ("dirs" \in DOMAIN r) => SeqToSet(r.got.dirs) = SeqToSet(r.dirs)
+                 /\ JarPreAlt(jar, r.nests) =>                                         \* a created class is itself listed
+                      /\ IsOk(r)
+                      /\ JarLawAlt(jar, r.nests, JarOut(r), "jin" \in DOMAIN r)
          [] r.op = "agree" ->
               LET jar == IF "jin" \in DOMAIN r THEN JarIn(r) ELSE RecipeJar(r.jar)
                   M == NormTree(r.tree)
@@ -61,7 +64,8 @@ Expected(r) ==
     CASE r.op = "nest_jar" ->
             LET jar == IF "jin" \in DOMAIN r THEN JarIn(r) ELSE RecipeJar(r.jar)
             IN IF ~TableOK(r) THEN [inconsistent |-> "text does not denote the table"]
-               ELSE IF JarPre(jar, r.nests) THEN LawJar(jar, r.nests) ELSE Weak
+               ELSE IF JarPre(jar, r.nests) THEN LawJar(jar, r.nests)
+               ELSE IF JarPreAlt(jar, r.nests) THEN LawJarAlt(jar, r.nests) ELSE Weak
       [] r.op = "agree" ->
             LET jar == IF "jin" \in DOMAIN r THEN JarIn(r) ELSE RecipeJar(r.jar)
                 M == NormTree(r.tree)
